@@ -774,3 +774,30 @@ func ReturnedValues(v ssa.Value) []ssa.Value {
 	}
 	return out
 }
+
+// CutEdgesDeep is CutEdges over every function of Reach(root).
+func CutEdgesDeep(root *ssa.Function, lits ...Lit) (map[Edge]bool, []int) {
+	defer WithRoot(root)()
+	cut := map[Edge]bool{}
+	per := make([]int, len(lits))
+	for _, f := range Reach(root) {
+		c, p := CutEdges(f, lits...)
+		for e := range c {
+			cut[e] = true
+		}
+		for i := range p {
+			per[i] += p[i]
+		}
+	}
+	return cut, per
+}
+
+// EdgeFactsDeep is EdgeFacts over every function of Reach(root).
+func EdgeFactsDeep(root *ssa.Function, atoms ...*Atom) []EdgeFact {
+	defer WithRoot(root)()
+	var out []EdgeFact
+	for _, f := range Reach(root) {
+		out = append(out, EdgeFacts(f, atoms...)...)
+	}
+	return out
+}
